@@ -9,7 +9,7 @@ Import ListNotations.
 Theorem C02_containment : forall c f url q mime t,
   handle c f url = OServe q mime t ->
   path_prefixb (s_root c) q = true /\ realpath f [] q = RPath q /\
-  exists content, lstat f q = Some (File content) /\ decode content = Some t.
+  exists content, lstat f q = Some (File content) /\ read_text content = Some t.
 Proof. exact Fs_proofs.containment. Qed.
 Print Assumptions C02_containment.
 
@@ -40,7 +40,7 @@ Theorem C02_reachable_literal : forall c f segs content t,
   lstat f (s_root c ++ segs) = Some (File content) -> segs <> [] ->
   (forall n, In n segs -> n <> [] /\ n <> dot /\ n <> dotdot /\ mem ch_slash n = false /\ mem ch_pct n = false /\ mem 0%N n = false) ->
   (length (s_root c ++ segs) < 1000)%nat ->
-  (N.of_nat (length content) <= s_max c)%N -> decode content = Some t ->
+  (N.of_nat (length content) <= s_max c)%N -> read_text content = Some t ->
   (* the document root itself is a canonical path, and no name exceeds the 255-byte limit *)
   (forall n, In n (s_root c) -> n <> [] /\ n <> dot /\ n <> dotdot) ->
   name_too_long (s_root c ++ segs) = false ->
